@@ -28,13 +28,13 @@ ASSUMPTIONS = ["total derivative agreement 1e-9 relative for atom programs (exac
                "atoms' own adjoints are hand-derived in the harness and are part of the trusted base (they are checked against their JVPs by the same identity)"]
 FLOORS = {"quick": {"cases_held": 2500, "programs_with_slices": 500, "programs_nested": 500, "programs_shared_signal": 800,
                     "unseeded_sources_checked": 100, "eventlog_checked": 2500, "fe_templates": 50},
-          "thorough": {"cases_held": 25000, "programs_with_slices": 5000, "programs_nested": 5000, "programs_shared_signal": 8000,
-                       "unseeded_sources_checked": 1000, "eventlog_checked": 25000, "fe_templates": 500}}
+          "thorough": {"cases_held": 80000, "programs_with_slices": 15000, "programs_nested": 15000, "programs_shared_signal": 25000,
+                       "unseeded_sources_checked": 3000, "eventlog_checked": 80000, "fe_templates": 1500}}
 
 
 def plan(tier, seed):
-    n = 3000 if tier == "quick" else 30000
-    nfe = 120 if tier == "quick" else 1200
+    n = 3000 if tier == "quick" else 100000
+    nfe = 120 if tier == "quick" else 4000
     cases = [{"fam": "atoms", "i": i} for i in range(n)]
     cases += [{"fam": "fe", "i": i} for i in range(nfe)]
     cases += [{"fam": "generic", "i": i} for i in range(nfe)]
